@@ -22,6 +22,6 @@ func verifTickPending(*Engine) bool { return false }
 
 func verifReady(string, ...bool) bool { return false }
 
-func verifPick(string, ...bool) int { return 0 }
+func verifPick(string, ...bool) {}
 
-func verifBoth(bool, bool) bool { return false }
+func verifTook(string, int) {}
